@@ -11,7 +11,9 @@ ARGS = ["", "a", "'lit'", "a, b", "f(), b", "...r", "a, ...r", "m, a", "a, m", "
 METHODS = ["trim", "substring", "concat", "replace", "slice", "trimStart", "toUpperCase", "foo"]
 RECV = ["a", "str", "'lit'", "f()", "o.p", "(a)", "[a, b]", "m", "this", "`t${a}`", "str.trim()", "nul", "undef", "o[k]", "f.str()"]
 TARGETS = ["x", "o.p", "o[k]", "o[f()]", "f().p", "o.p.q", "arr[i++]", "this.v", "m.p", "o[a + b]", "o[-k]", "o[+k]", "(o[-k])", "o[`${k}`]", "o[k ? 'a' : 'b']",
-           "o[k.p]", "o[typeof k]", "o[!k]", "o[~k]", "o[k - 1]", "o[(k, 1)]", "o[k?.p]", "o.p[-k]", "o[k][-i]", "o[-1]", "o[m]", "o[-m]", "o[m.p]"]
+           "o[k.p]", "o[typeof k]", "o[!k]", "o[~k]", "o[k - 1]", "o[(k, 1)]", "o[k?.p]", "o.p[-k]", "o[k][-i]", "o[-1]", "o[m]", "o[-m]", "o[m.p]",
+           # both the object and the computed key have effects: their order is visible
+           "f()[g(a)]", "o.p[f()]", "g(a)[k + 1]", "f()[m.p]", "m.p[f()]", "o.q.r[g(b)]", "f()[g(a)].p", "f().p[g(a)]", "(a, o)[f()]", "o[f()][g(a)]"]
 ARRS = ["[a, b]", "[]", "[a, , b]", "[...r]", "[a, ...r]", "[[x, y], z]", "[f(), g()]", "arr", "...r", "[m, a]"]
 
 
